@@ -62,7 +62,7 @@ var propertyCanaries = map[string][]string{
 	"C16": {"DECODE.order", "DECODE.errdrop", "DECODE.mul", "DECODE.selfcmp", "DECODE.clone", "DECODE.fields"},
 	"C17": {"GLOBAL.write", "RESET.fields", "WINDOW.pointwise"},
 	"C18": {"CONST.stencil", "GOPROTO.sibling"},
-	"C19": {"GOPROTO.scratch", "GOPROTO.run", "INIT.state"},
+	"C19": {"OPT.limits", "GOPROTO.scratch", "GOPROTO.run", "INIT.state"},
 }
 
 func init() {
@@ -97,6 +97,7 @@ func init() {
 		{"DECODE.order", "mat/io.go", "\tif len(data) != headerSize+int(rows*cols)*sizeFloat64 {\n\t\treturn errBadBuffer\n\t}\n", "\tm.reuseAsNonZeroed(int(rows), int(cols))\n\tif len(data) != headerSize+int(rows*cols)*sizeFloat64 {\n\t\treturn errBadBuffer\n\t}\n", func() *core.Result { return decode.RunOrder(def, core.Pkgs("./mat")) }},
 		{"OKFLOW.condpath", "mat/cholesky.go", "\t\tlapack64.Potrs(c.chol.mat, dst.asGeneral())\n\t\tif c.cond > ConditionTolerance {\n\t\t\treturn Condition(c.cond)\n\t\t}\n\t\treturn nil", "\t\tlapack64.Potrs(c.chol.mat, dst.asGeneral())\n\t\treturn nil", func() *core.Result { return okflow.Run(def, core.Pkgs("./mat", "./lapack/lapack64", "./lapack/gonum")) }},
 		{"FACT.condafter", "mat/lq.go", "\tlapack64.Gelqf(lq.lq.mat, lq.tau, work, len(work))\n\tputFloat64s(work)\n\tlq.updateCond(norm)", "\tlq.updateCond(norm)\n\tlapack64.Gelqf(lq.lq.mat, lq.tau, work, len(work))\n\tputFloat64s(work)", func() *core.Result { return factx.Run(def) }},
+		{"OPT.limits", "optimize/minimize.go", "stats.GradEvaluations >= settings.GradEvaluations", "stats.FuncEvaluations >= settings.GradEvaluations", func() *core.Result { return initx.RunLimits(def) }},
 		{"WORKSIZE.min", "lapack/gonum/dgels.go", "wsize := max(1, mn+max(mn, nrhs)*nb)", "wsize := max(1, mn+mn*nb)", wsz},
 		{"WORKSIZE.querylen", "lapack/gonum/dormqr.go", "case lwork < max(1, nw) && lwork != -1:\n\t\tpanic(badLWork)", "case lwork < max(1, nw) && lwork != -1:\n\t\tpanic(badLWork)\n\tcase len(tau) != k:\n\t\tpanic(badLenTau)", wsz},
 		{"WORKSIZE.min", "lapack/gonum/dsyev.go", "lworkopt := max(1, (nb+2)*n)", "lworkopt := max(1, (nb+1)*n)", wsz},
